@@ -3,6 +3,10 @@ import ComposeVerif.Lemmas.C02StageWalk
 import ComposeVerif.Lemmas.C02StageDefaults
 import ComposeVerif.Lemmas.C02StageInterp
 import ComposeVerif.Lemmas.C02StagePaths
+import ComposeVerif.Lemmas.C02StageValidate
+import ComposeVerif.Lemmas.C02StageCanonical
+import ComposeVerif.Lemmas.C02StageCompose
+import ComposeVerif.Lemmas.C02StageInterpWF
 /-!
 # C02 — `stage_perm`: the loader stages do not depend on the order in which Go ranges over mappings
 
@@ -111,6 +115,139 @@ theorem resolvePaths_stage_perm (t : CV.Paths.Table) (cfg : CV.Paths.Cfg) (p : T
 theorem resolve_stage_perm (cfg : CV.Paths.Cfg) {v w : Val} (h : CV.Deep.Eqv v w) (wv : CV.Deep.WF v) (ww : CV.Deep.WF w) :
     PRel CV.Deep.Eqv (CV.Paths.resolve cfg v) (CV.Paths.resolve cfg w) := walk_eqv _ cfg _ h wv ww
 
+/-- the full-strength statement for `transform.Canonical`: the walk respects the equivalence at *every* path.  It is not
+proved: `transformMaybeExternal` (`volumes.*`, `networks.*`, `secrets.*`, `configs.*`) ends with `extname != name` on
+untyped values — a run-time panic in Go when both are mappings (one outcome in every order; replayed by
+`corpus/C02/stage-canonical-external-name-mappings.json`), and the derived, opaque `BEq` of `Val` in C03's model, about
+which nothing can be proved -/
+def CanonicalStagePerm : Prop :=
+  ∀ (ign : Bool) (p : TPath) (v w : Val), CV.Deep.Eqv v w → CV.Deep.WF v → CV.Deep.WF w →
+    ORel CV.Deep.Eqv (optS (CV.Short.transform ign p v)) (optS (CV.Short.transform ign p w))
+
+/-- **`transform.Canonical` as a whole tree walk, at every path at or below which `transformMaybeExternal` cannot match**
+(`NoExt p`): all nesting levels at once, the fourteen other handlers of the regenerated table with their helpers
+(`dependsMap`, `envFileValue`, `portEntries`, the `KEY=VALUE` / ssh / networks / depends_on list converters).  Trees
+equivalent up to the order of mapping entries at any depth become equivalent canonical trees, or both walks fail -/
+theorem canonical_stage_perm_partial (ign : Bool) (p : TPath) (hp : NoExt p) {v w : Val}
+    (h : CV.Deep.Eqv v w) (wv : CV.Deep.WF v) (ww : CV.Deep.WF w) :
+    ORel CV.Deep.Eqv (optS (CV.Short.transform ign p v)) (optS (CV.Short.transform ign p w)) :=
+  transform_eqv ign p hp h wv ww
+
+/-- in particular everywhere below `services` (every service, every attribute, every depth) -/
+theorem canonical_services_stage_perm (ign : Bool) (rest : List String) {v w : Val}
+    (h : CV.Deep.Eqv v w) (wv : CV.Deep.WF v) (ww : CV.Deep.WF w) :
+    ORel CV.Deep.Eqv (optS (CV.Short.transform ign ("services" :: rest) v)) (optS (CV.Short.transform ign ("services" :: rest) w)) :=
+  transform_eqv ign _ (noExt_services rest) h wv ww
+
+/-- every non-recursing case of every handler (also those of `transformMaybeExternal`) treats equivalent nodes alike -/
+theorem canonical_leaf_perm (hname : Option String) (ign : Bool) {v w : Val}
+    (h : CV.Deep.Eqv v w) (wv : CV.Deep.WF v) (ww : CV.Deep.WF w) :
+    ORel CV.Deep.Eqv (optS (CV.Short.leaf hname ign v)) (optS (CV.Short.leaf hname ign w)) := cong_leaf hname ign v w h wv ww
+
+/-- the rows of the regenerated table with the excluded handler: none starts with `services` or `*` -/
+theorem canonical_excluded_rows : ∀ row ∈ CV.Gen.transformers, row.2 = "transformMaybeExternal" →
+    row.1.head? ≠ some "*" ∧ row.1.head? ≠ some "services" ∧ row.1 ≠ [] := ext_rows_not_services
+
+/-- `Eqv` is reflexive on every tree (no distinct-keys hypothesis needed) -/
+theorem eqv_refl_all (v : Val) : CV.Deep.Eqv v v := eqvRefl v
+
+/-- **`validation.Validate` as a whole tree walk** (C10's model `CV.Validate.validate`: the `check` walk with its six
+rows and four checkers): trees equivalent up to the order of mapping entries at any depth are accepted or rejected alike.
+*Which* error a rejected tree gets depends on the order (`Neg.Env.validate_which_error_order_dependent`) -/
+theorem validate_stage_perm {v w : Val} (h : CV.Deep.Eqv v w) (wv : CV.Deep.WF v) (ww : CV.Deep.WF w) :
+    (CV.Validate.validate v = .ok) ↔ (CV.Validate.validate w = .ok) := validate_eqv h wv ww
+
+/-- every checker of the `checks` table decides equivalent nodes alike (the `m[k]` / `len` / key-loop accesses) -/
+theorem validate_checker_perm (c : CV.Validate.Checker) {v w : Val} (h : CV.Deep.Eqv v w) :
+    CV.Validate.run c v = CV.Validate.run c w := run_eqv c h
+
+/-- `Validate` returns no error exactly when the walk finds no failing node (the error is the first one met) -/
+theorem validate_ok_iff_no_failure (t : Val) : CV.Validate.validate t = .ok ↔ CV.Validate.validTreeB t = true :=
+  validate_ok_iff t
+
+/-! ## composition: a pipeline of stages -/
+
+/-- **a pipeline of stages that each respect the equivalence respects it** (`runStages` = run them in sequence, stop at
+the first failure; `WFAlong` = the input and every intermediate tree has distinct keys everywhere, which every Go
+`map[string]any` has by construction) -/
+theorem stages_compose (fs : List StageFn) (hall : ∀ f ∈ fs, Respects f) {v w : Val} (h : CV.Deep.Eqv v w)
+    (hv : WFAlong fs v) (hw : WFAlong fs w) : ORel CV.Deep.Eqv (runStages fs v) (runStages fs w) :=
+  runStages_respects fs hall v w h hv hw
+
+/-- **the stages a service definition goes through, composed**: `Interpolate`, `Canonical`, `SetDefaultValues`,
+`ResolveRelativePaths` run one after the other on the subtree at or below `services.<name>` — two spellings of the
+subtree that differ only in the order of mapping entries (any depth) end as such spellings of one result, or both fail
+(at whichever stage) -/
+theorem service_pipeline_perm (c : CV.Interp.Cfg) (ign : Bool) (tbl : List (List String × String)) (t : CV.Paths.Table)
+    (cfg : CV.Paths.Cfg) (rest : List String) {v w : Val} (h : CV.Deep.Eqv v w)
+    (hv : WFAlong [interpStage c ("services" :: rest), canonicalStage ign ("services" :: rest),
+      defaultsStage tbl ("services" :: rest), pathsStage t cfg ("services" :: rest)] v)
+    (hw : WFAlong [interpStage c ("services" :: rest), canonicalStage ign ("services" :: rest),
+      defaultsStage tbl ("services" :: rest), pathsStage t cfg ("services" :: rest)] w) :
+    ORel CV.Deep.Eqv
+      (runStages [interpStage c ("services" :: rest), canonicalStage ign ("services" :: rest),
+        defaultsStage tbl ("services" :: rest), pathsStage t cfg ("services" :: rest)] v)
+      (runStages [interpStage c ("services" :: rest), canonicalStage ign ("services" :: rest),
+        defaultsStage tbl ("services" :: rest), pathsStage t cfg ("services" :: rest)] w) := by
+  apply runStages_respects _ _ v w h hv hw
+  intro f hf
+  simp only [List.mem_cons, List.not_mem_nil, or_false] at hf
+  rcases hf with rfl | rfl | rfl | rfl
+  · exact respects_interp c _
+  · exact respects_canonical ign _ (noExt_services rest)
+  · exact respects_defaults tbl _
+  · exact respects_paths t cfg _
+
+/-- **the whole-document stages without `Canonical`, composed**: `Interpolate`, `Validate`, `SetDefaultValues`,
+`ResolveRelativePaths` on the document -/
+theorem document_pipeline_perm (c : CV.Interp.Cfg) (tbl : List (List String × String)) (t : CV.Paths.Table)
+    (cfg : CV.Paths.Cfg) (p : TPath) {v w : Val} (h : CV.Deep.Eqv v w)
+    (hv : WFAlong [interpStage c p, validateStage, defaultsStage tbl p, pathsStage t cfg p] v)
+    (hw : WFAlong [interpStage c p, validateStage, defaultsStage tbl p, pathsStage t cfg p] w) :
+    ORel CV.Deep.Eqv (runStages [interpStage c p, validateStage, defaultsStage tbl p, pathsStage t cfg p] v)
+      (runStages [interpStage c p, validateStage, defaultsStage tbl p, pathsStage t cfg p] w) := by
+  apply runStages_respects _ _ v w h hv hw
+  intro f hf
+  simp only [List.mem_cons, List.not_mem_nil, or_false] at hf
+  rcases hf with rfl | rfl | rfl | rfl
+  · exact respects_interp c _
+  · exact respects_validate
+  · exact respects_defaults tbl _
+  · exact respects_paths t cfg _
+
+/-- **`Interpolate` keeps the keys of every mapping distinct** (it discharges `WFAlong` for the stage after it) -/
+theorem interpolate_preserves_wf (c : CV.Interp.Cfg) (p : TPath) {v r : Val} (wv : CV.Deep.WF v)
+    (h : CV.Interp.interp c p v = .ok r) : CV.Deep.WF r := interp_wf c p wv h
+
+/-- `Interpolate` then `Validate`, composed **without** any hypothesis on the intermediate tree -/
+theorem interpolate_validate_perm (c : CV.Interp.Cfg) (p : TPath) {v w : Val} (h : CV.Deep.Eqv v w)
+    (wv : CV.Deep.WF v) (ww : CV.Deep.WF w) :
+    ORel CV.Deep.Eqv (runStages [interpStage c p, validateStage] v) (runStages [interpStage c p, validateStage] w) := by
+  have along : ∀ u, CV.Deep.WF u → WFAlong [interpStage c p, validateStage] u := by
+    intro u wu
+    refine ⟨wu, fun x hx => ⟨?_, fun y hy => ?_⟩⟩
+    · unfold interpStage at hx
+      cases hi : CV.Interp.interp c p u with
+      | ok z => rw [hi] at hx; simp only [optI, Option.some.injEq] at hx; subst hx; exact interp_wf c p wu hi
+      | err e => rw [hi] at hx; cases hx
+      | panic e => rw [hi] at hx; cases hx
+    · unfold interpStage at hx
+      unfold validateStage at hy
+      cases hi : CV.Interp.interp c p u with
+      | ok z =>
+        rw [hi] at hx; simp only [optI, Option.some.injEq] at hx; subst hx
+        split at hy
+        · cases hy; exact interp_wf c p wu hi
+        · cases hy
+      | err e => rw [hi] at hx; cases hx
+      | panic e => rw [hi] at hx; cases hx
+  apply runStages_respects _ _ v w h (along v wv) (along w ww)
+  intro f hf
+  simp only [List.mem_cons, List.not_mem_nil, or_false] at hf
+  rcases hf with rfl | rfl
+  · exact respects_interp c _
+  · exact respects_validate
+
 /-- the walker loop for recursive calls that respect the equivalence (the core of the whole-tree theorems) -/
 theorem walker_loop_deep (g g' : String → Val → Option Val) {a b : KVs} (hm : CV.Deep.MEqv a b)
     (wa : CV.Deep.MWF a) (wb : CV.Deep.MWF b)
@@ -129,5 +266,22 @@ example : TopPerm [("services", .map [("b", .null), ("a", .null)]), ("name", .st
   refine ⟨?_, .inr ⟨_, _, rfl, rfl, List.Perm.swap _ _ _⟩⟩
   intro k hk
   simp only [lookup, hk, if_false]
+
+/-- `validate_stage_perm` on two declaration orders of an invalid and of a valid tree -/
+example : CV.Validate.validate (.map [("volumes", .map [("v", .int 5)]), ("configs", .map [("c", .map [])])]) ≠ .ok ∧
+    CV.Validate.validate (.map [("configs", .map [("c", .map [])]), ("volumes", .map [("v", .int 5)])]) ≠ .ok ∧
+    CV.Validate.validate (.map [("volumes", .map [("v", .null)]), ("configs", .map [("c", .map [("file", .str "f")])])]) = .ok := by
+  decide
+
+/-- `NoExt` holds at a service and below; long-form `depends_on` in two orders gets the same defaults -/
+example : NoExt ["services", "web"] := noExt_services ["web"]
+example : CV.Short.transformDependsOn (.map [("db", .map [("condition", .str "service_healthy")]), ("c", .map [])]) =
+    .ok (.map [("db", .map [("condition", .str "service_healthy"), ("required", .bool true)]),
+      ("c", .map [("condition", .str "service_started"), ("required", .bool true)])]) := by
+  simp [CV.Short.transformDependsOn, CV.Short.dependsMap, CV.Short.dependsDefaults, CV.Short.hasKey, Val.lookup]
+
+/-- `WFAlong` is satisfiable: a scalar document through the validation stage -/
+example : WFAlong [validateStage] (.str "x") := ⟨.str _, fun x hx => by
+  unfold validateStage at hx; split at hx <;> cases hx; exact .str _⟩
 
 end CV.Det.Stage.Props
